@@ -208,6 +208,65 @@ func decodeOutcome1(data []byte, chunk int) (v *simcheck.Violation) {
 	return nil
 }
 
+// switchReader hands a decoder one byte string after another: end of input in between.
+type switchReader struct {
+	parts [][]byte
+	cur   int
+}
+
+func (r *switchReader) Read(p []byte) (int, error) {
+	if r.cur >= len(r.parts) || len(r.parts[r.cur]) == 0 {
+		return 0, io.EOF
+	}
+	n := copy(p, r.parts[r.cur])
+	r.parts[r.cur] = r.parts[r.cur][n:]
+	return n, nil
+}
+
+// decodeReuse hands several byte strings in turn to ONE decoder: whatever the earlier ones
+// did to it, each Decode returns a well-formed value or an error.
+func decodeReuse(parts [][]byte) *simcheck.Violation {
+	done := make(chan *simcheck.Violation, 1)
+	go func() {
+		var v *simcheck.Violation
+		defer func() {
+			if r := recover(); r != nil {
+				v = simcheck.V("decode-panic", "a decoder that is handed %d byte strings in turn panicked: %v", len(parts), r)
+			}
+			done <- v
+		}()
+		cp := make([][]byte, len(parts))
+		for i := range parts {
+			cp[i] = append([]byte{}, parts[i]...)
+		}
+		rd := &switchReader{parts: cp}
+		dec := pickle.NewDecoder(rd, pickle.UnpicklerFunc(envUnpickler))
+		for i := range parts {
+			rd.cur = i
+			val, err := dec.Decode()
+			if err == nil && val == nil {
+				v = simcheck.V("decode-nothing", "byte string %d handed to one decoder (%x after %x...): no value and no error", i, parts[i][:min(len(parts[i]), 16)], parts[0][:min(len(parts[0]), 48)])
+				return
+			}
+			if err == nil {
+				if bad := wellFormed(val, map[starlark.Value]bool{}); bad != "" {
+					v = simcheck.V("decode-malformed", "byte string %d handed to one decoder (%x after %x...): malformed value without an error: %s", i, parts[i][:min(len(parts[i]), 16)], parts[0][:min(len(parts[0]), 48)], bad)
+					return
+				}
+			}
+		}
+	}()
+	select {
+	case v := <-done:
+		return v
+	case <-time.After(15 * time.Second):
+		return &simcheck.Violation{Class: "decode-hang", Msg: "a reused decoder did not return within 15 s", Fatal: true}
+	}
+}
+
+// short second pickles that lean on what an earlier Decode left behind
+var reuseTails = [][]byte{[]byte("."), []byte("h\x00."), []byte("\x86."), []byte("]h\x00a."), []byte("}h\x00h\x00s."), []byte("\x8fh\x00\x85\x90.")}
+
 func typeName(v starlark.Value) string {
 	if v == nil {
 		return "nil"
@@ -382,6 +441,18 @@ func c15Exec(scAny any, c *simcheck.Ctx) *simcheck.Violation {
 				}
 				if v := try(raw[:off], 0, "stream_eof"); v != nil {
 					return v
+				}
+				if off%5 == 0 {
+					// one decoder, the truncated stream, then a tail, then the intact stream
+					idx++
+					if sc.Only == nil || *sc.Only == idx {
+						c.St.Count("decodes", 3)
+						c.St.Faults["decoder_reused_after_failure"]++
+						tail := reuseTails[(off/5)%len(reuseTails)]
+						if v := decodeReuse([][]byte{raw[:off], tail, raw}); v != nil {
+							return narrow(v, idx)
+						}
+					}
 				}
 				if off%7 == 0 {
 					if v := try(applyCorruption(raw, corruption{Off: off, Mask: 0}), 1, "stream_byte_flip_short_reads"); v != nil {
